@@ -16,7 +16,6 @@ use mc::drive::{self, PH2};
 use mc::genr::{GSpend, run_bundle, run_gen2};
 use mc::report::{Report, catch, fxhash};
 use mc::sx::{Sx, sha256};
-use rayon::prelude::*;
 use serde_json::{Value, json};
 use std::collections::{BTreeMap, HashSet};
 use std::sync::Mutex;
@@ -241,6 +240,7 @@ fn resolve<B: Builder>(hist: &[(Shape, CostPolicy)], tcost: &BTreeMap<(Shape, us
 }
 
 thread_local! {
+    static LOCAL: std::cell::RefCell<BTreeMap<String, u64>> = const { std::cell::RefCell::new(BTreeMap::new()) };
     static SIDE: std::cell::RefCell<Vec<(String, String)>> = const { std::cell::RefCell::new(Vec::new()) };
 }
 
@@ -411,39 +411,64 @@ fn run(rep: &Report) {
             tcost.insert((s, pos), truthful(s, pos));
         }
     }
-    let hs = all_histories(depth);
-    rep.extra("histories_per_builder", json!(hs.len()));
+    // Engine E: the history is a choice sequence (builder, length, then one of 25 letters per add);
+    // `explore_full` enumerates every sequence, sharded over the pool below the first two picks
+    let letters: Vec<(Shape, CostPolicy)> = SHAPES.iter().flat_map(|s| POLICIES.iter().map(move |p| (*s, *p))).collect();
     let states = Mutex::new(HashSet::new());
-    for interned in [false, true] {
-        hs.par_chunks(64).for_each(|chunk| {
-            let mut b: BTreeMap<String, u64> = BTreeMap::new();
-            let mut tr = 0u64;
-            let mut d = Vec::new();
-            for h in chunk {
-                let r = if interned { catch(|| check_history::<Interned>(h, &tcost, &states)) } else { catch(|| check_history::<Compressed>(h, &tcost, &states)) };
-                let side: Vec<(String, String)> = SIDE.with(|c| std::mem::take(&mut *c.borrow_mut()));
-                for (sig, det) in side.into_iter().take(1) {
-                    rep.violation(&format!("C10/{}/{sig}", if interned { "interned" } else { "compressed" }), hist_json(h, interned), det);
-                }
-                match r {
-                    Ok(Ok((res, t))) => {
-                        tr += t;
-                        let cls = if res.contains("declined") || res.contains("err") { if res.contains("added") { "mixed" } else { "all-rejected" } } else { "all-added" };
-                        *b.entry(format!("{}/{cls}", if interned { "interned" } else { "compressed" })).or_insert(0) += 1;
-                        d.push(fxhash(&(interned, format!("{h:?}"))));
-                    }
-                    Ok(Err((sig, det))) => rep.violation(&format!("C10/{}/{sig}", if interned { "interned" } else { "compressed" }), hist_json(h, interned), det),
-                    Err(p) => rep.violation(&format!("C10/{}/harness-panic", if interned { "interned" } else { "compressed" }), hist_json(h, interned), p),
+    let expected: u64 = 2 * all_histories(depth).len() as u64;
+    let executions = mc::engine::explore_full(3, |ch| {
+        let interned = ch.flag();
+        let n = ch.pick(depth as u32 + 1) as usize;
+        let h: Vec<(Shape, CostPolicy)> = (0..n).map(|_| *ch.pick_from(&letters)).collect();
+        if ch.probing {
+            return;
+        }
+        let h = &h;
+        let tag = if interned { "interned" } else { "compressed" };
+        let r = if interned { catch(|| check_history::<Interned>(h, &tcost, &states)) } else { catch(|| check_history::<Compressed>(h, &tcost, &states)) };
+        let side: Vec<(String, String)> = SIDE.with(|c| std::mem::take(&mut *c.borrow_mut()));
+        for (sig, det) in side.into_iter().take(1) {
+            rep.violation(&format!("C10/{tag}/{sig}"), hist_json(h, interned), det);
+        }
+        rep.eval();
+        rep.trace();
+        match r {
+            Ok(Ok((res, t))) => {
+                rep.transitions.fetch_add(t, std::sync::atomic::Ordering::Relaxed);
+                let cls = if res.contains("declined") || res.contains("err") { if res.contains("added") { "mixed" } else { "all-rejected" } } else { "all-added" };
+                LOCAL.with(|l| *l.borrow_mut().entry(format!("{tag}/{cls}")).or_insert(0) += 1);
+                rep.distinct(fxhash(&(interned, format!("{h:?}"))));
+            }
+            Ok(Err((sig, det))) => rep.violation(&format!("C10/{tag}/{sig}"), hist_json(h, interned), det),
+            Err(p) => rep.violation(&format!("C10/{tag}/harness-panic"), hist_json(h, interned), p),
+        }
+        // flush the per-thread histogram now and then (cheap: a handful of keys)
+        LOCAL.with(|l| {
+            let mut l = l.borrow_mut();
+            if l.values().sum::<u64>() >= 256 {
+                for (k, n) in std::mem::take(&mut *l) {
+                    rep.outcome_n(&k, n);
                 }
             }
-            rep.evals(chunk.len() as u64);
-            rep.transitions.fetch_add(tr, std::sync::atomic::Ordering::Relaxed);
-            rep.traces.fetch_add(chunk.len() as u64, std::sync::atomic::Ordering::Relaxed);
-            for (k, n) in b {
+        });
+    });
+    // flush what is left in every pool thread
+    rayon::broadcast(|_| {
+        LOCAL.with(|l| {
+            for (k, n) in std::mem::take(&mut *l.borrow_mut()) {
                 rep.outcome_n(&k, n);
             }
-            rep.distinct_many(d);
-        });
+        })
+    });
+    LOCAL.with(|l| {
+        for (k, n) in std::mem::take(&mut *l.borrow_mut()) {
+            rep.outcome_n(&k, n);
+        }
+    });
+    rep.extra("histories_per_builder", json!(expected / 2));
+    rep.extra("engine_E_executions", json!(executions));
+    if executions != expected {
+        rep.machinery_error(&format!("engine E visited {executions} choice sequences, the product has {expected}"));
     }
     rep.states.store(states.lock().unwrap().len() as u64, std::sync::atomic::Ordering::Relaxed);
     rep.sample(json!({"history": [["One", "Truthful"], ["TwoShared", "ExactPlusOne"], ["Batch", "Truthful"]], "meaning": "second add passes the early check, is rejected after serialisation (undo), third add must behave as if the second never happened"}));
